@@ -42,6 +42,8 @@ func runC11(c *Ctx) {
 		// hand-off structure of the shared reader goroutines: a request parked inside the reader cannot be cancelled by closing the
 		// old generation's handle, so the next datagram would go to the generation that is being retired
 		ruleCancelPump(c, m, "HANDOFF")
+		// the handle side of the hand-off: closed state excluded first, and what a handle has received it delivers
+		ruleClosedGuard(c, m)
 	}
 	ruleSurvive(c)
 }
@@ -572,6 +574,60 @@ func ruleClosedGuard(c *Ctx, m *multiModel) {
 								}
 							}
 						}
+					}
+				}
+				// DELIVER: what the handle takes from the shared channel it hands to its caller — on every path, and it never closes
+				// it itself. A connection that the old generation's handle has already received cannot reach the new generation any
+				// more; dropping it there loses a client connection at every reload.
+				if s.States[sharedK].Dir == types.RecvOnly {
+					ti := 2
+					for k := 0; k < sharedK; k++ {
+						if s.States[k].Dir == types.RecvOnly {
+							ti++
+						}
+					}
+					var recvVal, okVal ssa.Value
+					for _, r := range *s.Referrers() {
+						if ex, isEx := r.(*ssa.Extract); isEx {
+							if ex.Index == ti {
+								recvVal = ex
+							}
+							if ex.Index == 1 {
+								okVal = ex
+							}
+						}
+					}
+					if e, okE := selectArmEdge(s, sharedK); okE && recvVal != nil {
+						fromRecv := func(v ssa.Value) bool {
+							return p.AnyFrom(v, eng.OriginOpts{ThroughConvert: true, ThroughFieldLoad: true}, func(x ssa.Value) bool { return x == recvVal })
+						}
+						starts := []eng.Point{edgePoint(e)}
+						if okVal != nil {
+							if te, _ := eng.BoolEdges(f, func(v ssa.Value) bool { return v == okVal }); len(te) > 0 {
+								starts = nil
+								for _, x := range sortedEdges(te) {
+									starts = append(starts, edgePoint(x))
+								}
+							}
+						}
+						okDel, why := true, ""
+						for _, st := range starts {
+							for _, ins := range eng.ReachableInstrs(st, func(ssa.Instruction) bool { return true }, nil) {
+								switch x := ins.(type) {
+								case *ssa.Return:
+									if len(x.Results) == 0 || !fromRecv(x.Results[0]) {
+										okDel, why = false, "returns at "+p.IPos(x)+" without the received value"
+									}
+								case *ssa.Call:
+									if eng.MethodName(&x.Call) == "Close" {
+										if r := eng.Receiver(&x.Call); r != nil && fromRecv(r) {
+											okDel, why = false, "closes it at "+p.IPos(x)
+										}
+									}
+								}
+							}
+						}
+						c.CheckAt("DELIVER", key+":received-connection-is-handed-to-the-caller", s, okDel, "after taking a connection from the shared channel the handle "+why+": a connection that was already handed to this (possibly just released) handle is lost — no other handle can receive it any more")
 					}
 				}
 				c.CheckAt("CLOSEDGUARD", key+":closed-state-excluded", s, idiom1 || idiom2,
